@@ -226,25 +226,35 @@ def check_prefix(facts, chk):
                    sample=dict(function=fn, accumulator=a['acc'], index=idx))
 
     def go_idx():
+        # third sibling, decided semantically (it is a pure function of the contig lengths): IdxCheck::new interpreted on
+        # every vector of <= 4 contig lengths in 0..3 gives end_coor = running sums.  (Was a shape rule on the accumulator
+        # statement; an iterator-chain rewrite of the same sum raised a false alarm.)
+        import itertools
+        from ..absint.interp import Interp
+        from ..absint.values import BV, Agg, RefV, Cell
         fn = 'ska_ref::idx_check::IdxCheck::new'
-        b, eb, accs = scan(fn)
-        if len(accs) != 1:
-            raise AnchorLost('IdxCheck::new: %d accumulators' % len(accs))
-        a = accs[0]
-        ebt = ExprBuilder(b)
-        its = [(bb, t) for bb, t in b.calls() if (t.callee.name or '').endswith('into_iter')]
-        ok_iter = len(its) == 1 and show(ebt.operand(its[0][1].args[0])).strip('&*') == 'ref_seq'
-        push = [(bb, t) for bb, t in b.calls() if (t.callee.name or '').endswith('Vec::push')]
-        ok_push = len(push) == 1 and push[0][0] in reachable_without(b, a['bb']) and show(eb.operand(push[0][1].args[1])) == a['acc']
-        return a, ok_iter and ok_push
+        bad = []
+        n = 0
+        for nc in range(0, 5):
+            for lens in itertools.product(range(0, 4), repeat=nc):
+                I = Interp(facts)
+                seqs = Cell(Agg('array', 0, [Agg('array', 0, [BV(8, 65)] * L) for L in lens]), 'ref')
+                r = I.call_fn(fn, [RefV(seqs, (), (0, nc))])
+                got = [x.val for x in r.fields[0].fields]
+                want = list(itertools.accumulate(lens))
+                n += 1
+                if got != want:
+                    bad.append((lens, got, want))
+        return n, bad
     r = chk.guard('C04.prefix', 'C04.prefix:IdxCheck::new', go_idx)
     if r is not None:
         inst += 1
-        a, ok = r
-        if ok:
-            chk.ok('C04.prefix', 'C04.prefix:IdxCheck::new', a['span'], 'cum_pos += len(chrom) once per contig in order; end_coor.push(cum_pos) after it')
+        n, bad = r
+        if not bad:
+            chk.ok('C04.prefix', 'C04.prefix:IdxCheck::new', 'ska_ref::idx_check::IdxCheck::new', 'end_coor = running sums of the contig lengths for all %d length vectors (<= 4 contigs, lengths 0..3)' % n, evals=n)
         else:
-            chk.violation('C04.prefix', 'C04.prefix:IdxCheck::new', where=a['span'], detail='end_coor is not the running sum of contig lengths')
+            chk.violation('C04.prefix', 'C04.prefix:IdxCheck::new', where='ska_ref::idx_check::IdxCheck::new', evals=n,
+                          detail='end_coor is not the running sum of contig lengths: lengths %s give %s, specified %s' % bad[0])
     chk.floor('C04.prefix', 'prefix accumulators', inst, 3)
 
 
